@@ -1195,7 +1195,21 @@ func (m *mach) atomicLeaf(fn *ssa.Function, args []mv) (mv, bool) {
 	return nil, false
 }
 
-// syncModel: package sync under one goroutine. Locks, wait groups and condition variables do nothing;
+// deadlockPrefix starts the reason of a run that ended in a lock which can never be granted.
+const deadlockPrefix = "deadlock: "
+
+// lastModuleFn names the function entered most recently (for witnesses).
+func (m *mach) lastModuleFn() string {
+	if m.ringPos > 0 {
+		if f := m.ring[(m.ringPos-1)&31]; f != nil {
+			return f.String()
+		}
+	}
+	return "?"
+}
+
+// syncModel: package sync under one goroutine. Mutexes record whether this goroutine holds them (locking one it holds
+// ends the run as a deadlock; every top-level Call starts with none held); wait groups and condition variables do nothing;
 // Once.Do runs its function the first time (the done flag is kept beside the heap, keyed by the Once's address: synchronised state, not part of an instance's observable content); a Pool hands
 // out what New builds.
 func (m *mach) syncModel(fn *ssa.Function, args []mv) (mv, bool) {
@@ -1210,13 +1224,57 @@ func (m *mach) syncModel(fn *ssa.Function, args []mv) (mv, bool) {
 		}
 	}
 	switch recv {
-	case "Mutex", "RWMutex", "WaitGroup", "Cond":
-		switch fn.Name() {
-		case "TryLock", "TryRLock":
-			return true, true
-		case "RLocker":
+	case "Mutex", "RWMutex":
+		// the one goroutine's held locks, keyed by the mutex's address (-1: held exclusively, n > 0: n read locks);
+		// a lock taken on a mutex this goroutine holds can never return: the run ends as a deadlock
+		p, ok := args[0].(*mv)
+		if fn.Name() == "RLocker" {
 			return nil, false
 		}
+		if !ok || p == nil {
+			if strings.HasPrefix(fn.Name(), "Try") {
+				return true, true
+			}
+			return mNil, true
+		}
+		if m.heldLocks == nil {
+			m.heldLocks = map[*mv]int{}
+		}
+		held := m.heldLocks[p]
+		switch fn.Name() {
+		case "Lock":
+			if held != 0 {
+				m.abort("%ssync.%s.Lock on a mutex the same goroutine already holds (last function entered: %s): the call never returns", deadlockPrefix, recv, m.lastModuleFn())
+			}
+			m.heldLocks[p] = -1
+		case "RLock":
+			if held < 0 {
+				m.abort("%ssync.%s.RLock on a mutex the same goroutine already holds exclusively (last function entered: %s): the call never returns", deadlockPrefix, recv, m.lastModuleFn())
+			}
+			m.heldLocks[p] = held + 1
+		case "TryLock":
+			if held != 0 {
+				return false, true
+			}
+			m.heldLocks[p] = -1
+			return true, true
+		case "TryRLock":
+			if held < 0 {
+				return false, true
+			}
+			m.heldLocks[p] = held + 1
+			return true, true
+		case "Unlock":
+			delete(m.heldLocks, p)
+		case "RUnlock":
+			if held > 1 {
+				m.heldLocks[p] = held - 1
+			} else {
+				delete(m.heldLocks, p)
+			}
+		}
+		return mNil, true
+	case "WaitGroup", "Cond":
 		return mNil, true
 	case "Once":
 		if fn.Name() != "Do" || len(args) != 2 {
